@@ -16,7 +16,7 @@ class C12(GProp):
     files = ['tephra-error/src/recover.rs', 'tephra/src/lexer.rs', 'tephra-combinator/src/control.rs']
     rule = ('seeded random texts over items, the recovery tokens (first, last, repeated, absent), whitespace and a rejected char x '
             'recover / recover_default / delayed variants x recover_before / recover_after / _any x the same parser object invoked '
-            '1..4 times in sequence (runs) and inside repeat x sink on/off; per invocation: ok/err, placeholder value, the remaining '
+            '1..4 times in sequence (runs) and inside repeat, and two different recovering parsers in sequence without a stabilize x sink on/off; per invocation: ok/err, placeholder value, the remaining '
             'token stream (next token = recovery point) and the number of errors reported are compared with a python reference '
             '(first recovery token at or after the start of the failed parser); non-trivial = a run in which the wrapped parser '
             'failed with a sink installed; distinct by case')
@@ -33,13 +33,20 @@ class C12(GProp):
             a = r.choice([['one', 'A'], ['seq', 'A', 'A'], ['both', ['one', 'A'], ['one', 'B']], ['any', 'A', 'B']])
             g = [comb, rs, a]
             runs = 1
-            k = r.below(6)
+            k = r.below(7)
             if k == 0: g = ['both', g, ['maybe', ['one', rs[1]]]]
             elif k == 1: g = ['repeat', 0, 'inf', ['both', g, ['one', rs[1] if len(rs) == 2 else 'Semi']]]
             elif k in (2, 3): runs = 2 + r.below(3)
             elif k == 4 and rs[0].startswith('after'):
                 # the same recovering parser re-entered after it failed with a recovery error
                 g = ['repeat', 0, 'inf', ['either', g, ['any', 'Semi', 'Comma', 'B', 'A']]]
+            elif k == 5:
+                # two DIFFERENT recovering parsers one after the other, no stabilize in between: the second recovery starts
+                # on a lexer that still carries the first one's recover state and must scan for its OWN token
+                rs2 = gen_rs(r)
+                a2 = r.choice([['one', 'A'], ['seq', 'A', 'A'], ['any', 'A', 'B']])
+                sep1 = ['maybe', ['any', 'Semi', 'Comma']]
+                g = ['both', ['left', g, sep1], [r.choice(RCOMB), rs2, a2]]
             t = spangen.random_text(r, alpha, 12 if tier == 'quick' else 24)
             n += 1
             out.append(parsegen.parse_case('c%d' % n, t, g, sink=(0 if r.chance(1, 5) else 1), runs=runs))
